@@ -2,10 +2,12 @@
 //!   vcheck <C01..C20> --tier quick|thorough
 //!   vcheck replay <file>
 //!   vcheck selftest [--deep]
+//!   vcheck worker <driver> ...      (C07, trapping build only)
 //! exit 0 = held on everything explored; 1 = VIOLATION printed; 2 = machinery failure.
 
 mod bitboards;
 mod common;
+mod crash;
 mod explore;
 mod fenfuzz;
 mod mgen;
@@ -16,6 +18,7 @@ mod roots;
 mod search;
 mod small;
 mod tables;
+mod tracing20;
 
 use common::*;
 use serde_json::{json, Value};
@@ -59,6 +62,72 @@ fn gate() {
     roots::validate_scenarios_against_reference(&sc);
 }
 
+pub fn dispatch(cmd: &str, args: &Args) -> i32 {
+    match cmd {
+        "C01" | "C02" | "C03" | "C04" | "C05" => {
+            gate();
+            positions::run(cmd, args)
+        }
+        "C06" => {
+            gate();
+            fenfuzz::run_c06(args)
+        }
+        "C07" => crash::run_c07(args),
+        "C08" => tables::run_c08(args),
+        "C09" => tables::run_c09(args),
+        "C10" => {
+            gate();
+            mgen::run_c10(args)
+        }
+        "C11" => {
+            gate();
+            search::run_c11(args)
+        }
+        "C12" => {
+            gate();
+            search::run_c12(args)
+        }
+        "C13" => {
+            gate();
+            search::run_c13(args)
+        }
+        "C14" => small::run_c14(args),
+        "C15" => {
+            gate();
+            plugin::run_c15(args)
+        }
+        "C16" => small::run_c16(args),
+        "C17" => {
+            gate();
+            small::run_c17(args)
+        }
+        "C18" => bitboards::run_c18(args),
+        "C19" => small::run_c19(args),
+        "C20" => tracing20::run_c20(args),
+        _ => machinery_failure(&format!("unknown command {cmd}")),
+    }
+}
+
+pub fn replay_dispatch(prop: &str, case: &Value) -> Vec<Divergence> {
+    match prop {
+        "C01" | "C02" | "C03" | "C04" | "C05" => positions::replay_case(prop, case),
+        "C06" => fenfuzz::replay_c06(case),
+        "C07" => crash::replay_c07(case),
+        "C08" => tables::replay_c08(case),
+        "C09" => tables::c09_all().2,
+        "C10" => mgen::replay_c10(case),
+        "C11" | "C12" | "C13" => search::replay(prop, case),
+        "C14" => small::replay_c14(case),
+        "C15" => plugin::replay_c15(case),
+        "C16" => small::replay_c16(case),
+        "C17" => small::c17_walk().divs.into_iter().map(|x| x.0).collect(),
+        "C18" => bitboards::replay_c18(case),
+        "C19" => small::c19_all(Tier::Quick).2,
+        "C20" => tracing20::replay_c20(case),
+        _ => machinery_failure(&format!("no replayer for {prop}")),
+    }
+}
+
 fn main() {
     let argv: Vec<String> = std::env::args().skip(1).collect();
     if argv.is_empty() {
@@ -79,49 +148,19 @@ fn main() {
                 Err(e) => machinery_failure(&e),
             }
         }
-        "C01" | "C02" | "C03" | "C04" | "C05" => {
-            gate();
-            positions::run(&cmd, &args)
-        }
-        "C06" => {
-            gate();
-            fenfuzz::run_c06(&args)
-        }
-        "C08" => tables::run_c08(&args),
-        "C09" => tables::run_c09(&args),
-        "C10" => {
-            gate();
-            mgen::run_c10(&args)
-        }
-        "C11" => {
-            gate();
-            search::run_c11(&args)
-        }
-        "C12" => {
-            gate();
-            search::run_c12(&args)
-        }
-        "C13" => {
-            gate();
-            search::run_c13(&args)
-        }
-        "C15" => {
-            gate();
-            plugin::run_c15(&args)
-        }
-        "C14" => small::run_c14(&args),
-        "C16" => small::run_c16(&args),
-        "C17" => {
-            gate();
-            small::run_c17(&args)
-        }
-        "C18" => bitboards::run_c18(&args),
-        "C19" => small::run_c19(&args),
         "replay" => {
             gate();
             replay(&args)
         }
-        _ => machinery_failure(&format!("unknown command {cmd}")),
+        "worker" => {
+            let Some(d) = args.rest.first().cloned() else { machinery_failure("worker <driver>") };
+            crash::worker_main(&d, &args)
+        }
+        "worker-case" => {
+            let Some(js) = args.rest.first().cloned() else { machinery_failure("worker-case <json>") };
+            crash::worker_case(&js)
+        }
+        other => dispatch(other, &args),
     };
     std::process::exit(code);
 }
@@ -134,25 +173,8 @@ fn replay(args: &Args) -> i32 {
     let class = v["class"].as_str().unwrap_or("").to_string();
     let case = &v["case"];
     // a replay is executed twice and must give identical observations
-    let run = || -> Vec<Divergence> {
-        match prop.as_str() {
-            "C01" | "C02" | "C03" | "C04" | "C05" => positions::replay_case(&prop, case),
-            "C06" => fenfuzz::replay_c06(case),
-            "C08" => tables::replay_c08(case),
-            "C09" => tables::c09_all().2,
-            "C10" => mgen::replay_c10(case),
-            "C11" | "C12" | "C13" => search::replay(&prop, case),
-            "C15" => plugin::replay_c15(case),
-            "C14" => small::replay_c14(case),
-            "C16" => small::replay_c16(case),
-            "C17" => small::c17_walk().divs.into_iter().map(|x| x.0).collect(),
-            "C18" => bitboards::replay_c18(case),
-            "C19" => small::c19_all(Tier::Quick).2,
-            _ => machinery_failure(&format!("no replayer for {prop}")),
-        }
-    };
-    let a = run();
-    let b = run();
+    let a = replay_dispatch(&prop, case);
+    let b = replay_dispatch(&prop, case);
     let fmt = |d: &[Divergence]| d.iter().map(|x| format!("{} | {}", x.class, x.detail)).collect::<Vec<_>>();
     if fmt(&a) != fmt(&b) {
         machinery_failure("replay is not deterministic: two executions observed different things");
